@@ -32,9 +32,10 @@ def check(repo: Repo, rep, tier):
     from .C13 import persist_remove
 
     persist_remove(repo, rep)
-    from .C13 import persist_unique
+    from .C13 import persist_unique, persist_pattern
 
     persist_unique(repo, rep)
+    persist_pattern(repo, rep)
     from .C03 import source_bom, line_model
 
     source_bom(repo, rep)
